@@ -451,6 +451,36 @@ def _compare_rules(ck: Checker) -> None:
                 ck.require(not escaped, "C09.kinds", cmp_, dn, "replacement queues delete(old) and then create(new)", "a replaced entry can be queued for deletion without its replacement being queued for creation")
         else:
             ck.fail("C09.kinds", cmp_, t, "MODIFY branch does not queue both delete(old) and create(new)")
+            continue
+        # ... and the replacement can be skipped only when the kinds agree (file/file with equal hashes, or dir/dir):
+        # a path round the delete that never learns "old kind == new kind" leaves a file where a directory is
+        # needed (or the reverse) whenever both sides lack a hash
+        from ..prov import scope_of as _scope
+
+        def isdir_name(nm: str) -> bool:
+            return "isdir" in nm or any(d.kind == "assign" and "isdir" in norm(d.value) for d in _scope(cmp_).get(nm))
+
+        def kinds_known_equal(a, lab, b) -> bool:
+            if lab == "exc":
+                return True
+            if a.kind != "test":
+                return False
+            e = a.ast
+            if isinstance(e, ast.Compare) and len(e.ops) == 1 and isinstance(e.left, ast.Name) and isinstance(e.comparators[0], ast.Name) and isdir_name(e.left.id) and isdir_name(e.comparators[0].id):
+                return (isinstance(e.ops[0], ast.NotEq) and lab == "F") or (isinstance(e.ops[0], ast.Eq) and lab == "T")
+            # `old_isdir and new_isdir`: the second atom of the chain, true edge
+            if isinstance(e, ast.Name) and isdir_name(e.id) and lab == "T":
+                preds = [p for p in g.nodes.values() if p.kind == "test" and isinstance(p.ast, ast.Name) and p.ast.id != e.id and isdir_name(p.ast.id) and ("T", a.id) in p.succ]
+                return bool(preds)
+            return False
+
+        dids = {n.id for n in d_in}
+        heads_ = {x.id for x in g.nodes.values() if x.kind == "for" and x.id in t.loops}
+        rr2 = g.reach([d for lab, d in t.succ if lab == mlab], skip_node=lambda x: x.id in dids, skip_edge=kinds_known_equal)
+        badk = [h_ for h_ in heads_ if h_ in rr2]
+        ck.require(not badk, "C09.kinds", cmp_, t, "a MODIFY skips the replacement only when old and new are known to be of the same kind",
+                   "a MODIFY can leave the old entry in place without having compared the kinds of old and new (only the hashes): when neither side has a hash - a workspace scanned without hashing, an intermediate directory of a tree - a file stays where a directory is needed and creating what lies below fails",
+                   witness=g.fmt_path(g.path_to(rr2, badk[0])) if badk else None, construct="MODIFY / kinds compared")
 
 
 def _error_rules(ck: Checker) -> None:
